@@ -19,9 +19,10 @@ ATTR_MENU = {
     "alt": [None, "alt", ""],
     "title": [None, "t", "Té", ""],
     "order": [1, 2, 5],
-    "meta": [None, 1, 2, "m", [1, [2, {"k": None}]], {"a": {"b": [1, 2]}, "c": None}, 0, False],
+    "meta": [None, 1, 2, "m", [1, [2, {"k": None}]], {"a": {"b": [1, 2]}, "c": None}, 0, False,
+             {}, {"a": {"b": [1, 2]}}, {"a": {"b": [1, 2], "z": None}, "c": None}, [1, [2, {}]], []],
     "colspan": [1, 2, 3],
-    "bg": [None, "red", {"r": 1}],
+    "bg": [None, "red", {"r": 1}, {}, {"r": 1, "g": None}, {"r": {"x": 1}}, {"r": {}}],
     "href": ["foo", "bar", "http://x/\U0001F600", ""],
     "id": [1, 2, 10, 20, 0],
 }
@@ -263,8 +264,11 @@ def gen_op_(rng, kind, doc, sel, pool):
         to = st if (near and rng.random() < 0.25) else pos
         marks = "cursor" if rng.random() < 0.6 else marks_json(
             rand_marks(rng, schema, doc.resolve(pos).parent.type, p_none=0.3) or [])
-        return {"op": "type", "from": pos, "to": max(pos, to), "text": rand_text(rng, 1, 3),
-                "marks": marks}
+        text = rand_text(rng, 1, 3)
+        if rng.random() < 0.04:
+            # now and then a whole sentence at once (long text nodes: block-wise fast paths)
+            text = rand_text(rng, 60, 140)
+        return {"op": "type", "from": pos, "to": max(pos, to), "text": text, "marks": marks}
     if kind == "type_run":
         pos = pick_text_pos()
         if pos is None:
